@@ -402,9 +402,13 @@ impl Exec {
                     let _ = std::os::unix::fs::symlink("/nonexistent/verif-dangling", &target);
                 }
             }
+            Op::EnvSpecial(_, kind) if kind % 4 == 3 => {
+                // the physical root directory itself disappears (unmounted, deleted by someone else)
+                let _ = std::fs::remove_dir_all(&dir);
+            }
             Op::EnvSpecial(_, kind) => {
                 if !target.exists() && std::fs::symlink_metadata(&target).is_err() && target.parent().map(|x| x.is_dir()).unwrap_or(false) {
-                    match kind % 3 {
+                    match kind % 4 {
                         0 => {
                             // a unix socket file (stays behind when the listener is dropped)
                             let _ = std::os::unix::net::UnixListener::bind(&target);
